@@ -24,6 +24,8 @@ const NOBLK: Blk = Blk { user: 0, size: 0, align: 0, no: 0, req: 0, live: false 
 pub static mut SCOPE: bool = false;
 /// panic window: opened by the panic hook; allocations of the panic runtime go to System untracked
 pub static mut WINDOW: bool = false;
+/// set once a request was refused (`Z`): the process is about to abort, nothing is tracked any more
+pub static mut FAILED: bool = false;
 pub static mut NATURAL_REQ: usize = 8;
 pub static mut REQ_HINT: usize = 0;
 pub static mut FAIL_AT: u64 = 0;
@@ -107,6 +109,7 @@ unsafe fn tracked_new(size: usize, align: usize, req: usize) -> *mut u8 {
       oracle(format_args!("table-full"));
     }
     crate::tl!("Z");
+    FAILED = true;
     return core::ptr::null_mut();
   }
   let slack = if align <= 4096 { 3 * align } else { align };
@@ -115,6 +118,7 @@ unsafe fn tracked_new(size: usize, align: usize, req: usize) -> *mut u8 {
   if raw.is_null() {
     oracle(format_args!("system-oom size={}", size));
     crate::tl!("Z");
+    FAILED = true;
     return raw;
   }
   let lo = raw as usize + CANARY;
@@ -144,10 +148,12 @@ unsafe fn foreign_slot(p: usize) -> Option<usize> {
 
 unsafe impl GlobalAlloc for Checking {
   unsafe fn alloc(&self, l: Layout) -> *mut u8 {
-    if !SCOPE && !WINDOW {
+    if (!SCOPE && !WINDOW) || FAILED {
       return System.alloc(l);
     }
-    if WINDOW {
+    // MiniVec never asks for less than 8-byte alignment (header); smaller alignments are the
+    // panic machinery formatting its message before the hook runs
+    if WINDOW || l.align() < 8 {
       let p = System.alloc(l);
       if let Some(i) = (0..MAXFOREIGN).find(|&i| FOREIGN[i] == 0) {
         FOREIGN[i] = p as usize;
@@ -160,8 +166,11 @@ unsafe impl GlobalAlloc for Checking {
   }
 
   unsafe fn dealloc(&self, p: *mut u8, l: Layout) {
-    if !SCOPE {
-      return System.dealloc(p, l);
+    if !SCOPE || FAILED {
+      if find_live(p as usize).is_none() {
+        System.dealloc(p, l);
+      }
+      return;
     }
     if let Some(i) = foreign_slot(p as usize) {
       FOREIGN[i] = 0;
@@ -193,7 +202,7 @@ unsafe impl GlobalAlloc for Checking {
   }
 
   unsafe fn realloc(&self, p: *mut u8, l: Layout, new_size: usize) -> *mut u8 {
-    if !SCOPE {
+    if !SCOPE || FAILED {
       return System.realloc(p, l, new_size);
     }
     if let Some(i) = foreign_slot(p as usize) {
